@@ -79,6 +79,10 @@ def catalogue(tier: str) -> list[dict]:
          'FrozenParameterGate(U3Gate(), {0: 0.5})', 'FrozenParameterGate(U3Gate(), {1: 1.25})',
          'FrozenParameterGate(U3Gate(), {0: 0.5, 2: -0.75})', 'FrozenParameterGate(U3Gate(), {0: 1, 1: 2, 2: 3})',
          'FrozenParameterGate(CUGate(), {3: 0.25})', 'TaggedGate(U3Gate(), "x")',
+         # dict insertion order is part of the constructor space (descending / mixed key orders)
+         'FrozenParameterGate(U3Gate(), {1: 1.25, 0: 0.5})', 'FrozenParameterGate(U3Gate(), {2: -0.75, 0: 0.5})',
+         'FrozenParameterGate(U3Gate(), {2: -0.75, 1: 1.25})', 'FrozenParameterGate(CUGate(), {3: 0.25, 1: 0.5})',
+         'FrozenParameterGate(CUGate(), {2: 0.25, 0: 0.5, 1: 0.75})',
          'EmbeddedGate(RXGate(), 3, [0, 1])', 'EmbeddedGate(RYGate(), 3, [0, 2])',
          'EmbeddedGate(U3Gate(), 4, [1, 3])', 'EmbeddedGate(CRXGate(), [3, 3], [[0, 1], [0, 2]])',
          'DaggerGate(ControlledGate(RXGate()))', 'ControlledGate(DaggerGate(RYGate()))',
@@ -91,7 +95,9 @@ def catalogue(tier: str) -> list[dict]:
               'PowerGate(CUGate(), 2)', 'PowerGate(FSIMGate(), -3)', 'FrozenParameterGate(U8Gate(), {0: 0.5, 7: 1})',
               'EmbeddedGate(U3Gate(), 5, [0, 4])', 'DaggerGate(PowerGate(U3Gate(), 2))',
               'ControlledGate(FrozenParameterGate(U3Gate(), {1: 0.5}))',
-              'FrozenParameterGate(ControlledGate(U3Gate()), {2: 0.5})']
+              'FrozenParameterGate(ControlledGate(U3Gate()), {2: 0.5})',
+              'FrozenParameterGate(U3Gate(), {2: 3, 1: 2, 0: 1})', 'FrozenParameterGate(U8Gate(), {7: 1, 0: 0.5, 3: 0.25})',
+              'FrozenParameterGate(CUGate(), {3: 0.25, 2: 0.5, 0: 1.5})']
     out = []
     for kind, lst in (('param', P), ('const', C), ('named', K), ('composed', X)):
         for mk in lst:
